@@ -174,8 +174,12 @@ func (s *RegionSyncer) syncHistoryRegion(request *pdpb.SyncRegionRequest, stream
 	startIndex := request.GetStartIndex()
 	name := request.GetMember().GetName()
 	records := s.history.RecordsFrom(startIndex)
-	if len(records) == 0 {
-		if s.history.GetNextIndex() == startIndex {
+	// A server that asks for index 0 has nothing yet, and index 0 does not tell how much this
+	// server holds: the index is flushed every 100 records only, so a restarted leader can be at
+	// (or shortly after) 0 with a cache full of regions loaded from its storage. Such a server
+	// always gets the full synchronization.
+	if len(records) == 0 || startIndex == 0 {
+		if startIndex != 0 && s.history.GetNextIndex() == startIndex {
 			log.Info("requested server has already in sync with server",
 				zap.String("requested-server", name), zap.String("server", s.server.Name()), zap.Uint64("last-index", startIndex))
 			return nil
